@@ -178,7 +178,10 @@ class Ctx:
             self.entry_pending[nid] = []
         if cont:
             self.cont_roots[nid] = []
-        track = self.spec[nid]['op'] in ('buffer', 'map_async', 'zip')
+        # acceptance times: for the bounded nodes themselves and for the consumers of nodes that hand on one
+        # element at a time (C03.handoff)
+        track = self.spec[nid]['op'] in ('buffer', 'map_async', 'zip') or any(
+            self.spec[u]['op'] in SERIAL_OPS for u in self.spec[nid].get('up', []) if u in self.spec)
 
         def update(x, who=None, metadata=None):
             idx = ctx.in_count[nid]
@@ -279,6 +282,9 @@ def make_traced_ref(ctx, elem, loop_obj):
 
 LOOP_NODES = {'buffer', 'delay', 'rate_limit', 'map_async', 'timed_window',
               'timed_window_unique', 'latest'}
+
+
+SERIAL_OPS = ('map_async', 'buffer', 'delay', 'latest', 'timed_window')
 
 
 def needs_loop(graph):
